@@ -167,6 +167,9 @@ class Twin:
             return st is None or (st[0] == "sync" and st[1][0]["pc"] == "cs")
         if a[0] == "s":
             return st is None
+        if a[0] == "e":
+            return (st is not None and st[0] == "sync" and st[1][0]["pc"] == "cs"
+                    and not (len(st[1]) == 1 and t in self.outq))
         if a[0] == "w":
             return st is not None and st[0] == "sync" and st[1][0]["pc"] == "cs" and t not in self.outq
         if a[0] == "d":
@@ -204,6 +207,10 @@ class Twin:
             return
         if a[0] == "s":
             self.thr[t] = ["start", "ld", None, None, a[1]]
+            return
+        if a[0] == "e":
+            st[1][0]["pc"] = "rl2"
+            self.feat.add("raise")
             return
         if a[0] == "w":
             self.pend += [(self.nextq, 0), (self.nextq, 1)]
@@ -346,6 +353,8 @@ def gen_schedule(rng: random.Random, tier: str):
                     cands = [("d",), ("d",)] + ([("a",)] if len(st[1]) > 1 else [])
                 elif rng.random() < 0.5:
                     cands.append(("w",))
+                if rng.random() < 0.08:
+                    cands.append(("e",))
                 if len(st[1]) < max_depth and rng.random() < 0.4:
                     cands = [("c",)]
         else:
@@ -416,8 +425,12 @@ def parse_steps(steps):
     return out
 
 
-FSCHED_QUICK = 150
-FSCHED_THOROUGH = 1500
+ONLINE_QUICK = 300
+ONLINE_THOROUGH = 1200
+DECO_QUICK = 100
+DECO_THOROUGH = 1500
+FSCHED_QUICK = 120
+FSCHED_THOROUGH = 800
 MP_QUICK = [("spawn", "ctx", 0), ("spawn", "default", 1), ("fork", "default", 0)]
 MP_ALL = [(m, h, lz) for m in ("fork", "spawn", "forkserver") for h in ("default", "ctx") for lz in (0, 1)] + [("mixed", "ctx", 0), ("mixed", "ctx", 1)]
 
@@ -435,8 +448,8 @@ class C14(Property):
         "Process.start() is not called from inside a synchronized call (documented as unsupported)",
         "a child process runs no synchronized call before its Process.run() / its import of term_image.utils",
     ]
-    quick_cases = 2000
-    thorough_cases = 12000
+    quick_cases = 1500
+    thorough_cases = 6000
     rule = ("a case is one forced schedule (threads x actions) generated from the PRNG state derived from VERIF_SEED by "
             "simulating the enabled steps; non-trivial = at least 10 steps; distinct by the hash of the request line")
 
@@ -498,8 +511,50 @@ class C14(Property):
             c = self.gen_fsched(rng, tier)
             if c is not None:
                 yield c
+        # probe schedules generated ONLINE by the worker from what the real threads can do next (so
+        # that exploration follows the real code when it leaves the model), three scenarios; and
+        # decorate-call-drop histories of short-lived callables
+        no = ONLINE_QUICK if tier == "quick" else ONLINE_THOROUGH
+        for k in range(no):
+            c = self.gen_online(rng, ("two-first-starts", "raising-bodies", "mix")[k % 3])
+            if c is not None:
+                yield c
+        for _ in range(DECO_QUICK if tier == "quick" else DECO_THOROUGH):
+            yield self.gen_deco(rng)
         while True:
             yield gen_schedule(rng, tier)
+
+    def gen_online(self, rng, scen):
+        nproc = rng.choice([1, 2, 2])
+        if scen == "two-first-starts":
+            # threads 0 and 1 of the root issue the FIRST two Process.start() concurrently
+            nproc = 2
+            procs = [0, 0, 1, 2] + [rng.randrange(3) for _ in range(rng.choice([0, 0, 1]))]
+            cfg = {"first": {"0": 1, "1": 2}, "nproc": 2, "p_exc": 0.05}
+        else:
+            n = rng.choice([2, 3, 4])
+            procs = [0, 0] + [rng.randrange(nproc + 1) for _ in range(n - 2)]
+            cfg = {"nproc": nproc, "p_exc": 0.4 if scen == "raising-bodies" else 0.1,
+                   "p_start": rng.choice([0.05, 0.2]), "maxdepth": rng.choice([1, 2, 3])}
+        flav = {str(c): rng.choice(["run", "import", "fork"]) for c in range(1, nproc + 1)}
+        r = self.worker().call({"op": "sgen", "procs": procs, "flav": flav, "seed": rng.randrange(1 << 30),
+                                "cfg": cfg, "maxsteps": rng.choice([40, 80, 120])})
+        if r.get("hang"):
+            self._hangs += 1
+            self._worker = None
+            return None
+        if "error" in r:
+            raise RuntimeError(r["error"])
+        return Case(sched_line(procs, r["steps"], flav), {"procs": procs, "steps": r["steps"], "flav": flav},
+                    "online-" + scen, len(r["steps"]) >= 10)
+
+    def gen_deco(self, rng):
+        ops = []
+        for _ in range(rng.choice([6, 15, 30])):
+            i = rng.randrange(3)
+            ops += rng.choice([[f"n{i}", f"d{i}", f"c{i}", f"x{i}"], [f"n{i}", f"d{i}", f"c{i}"], [f"d{i}", f"c{i}"],
+                               [f"c{i}"], [f"x{i}"], [f"n{i}", f"c{i}"], [f"d{i}", f"d{i}", f"c{i}"]])
+        return Case(f"deco {len(ops)} {' '.join(ops)}", {"deco": ops}, "decorate-call-drop", len(ops) >= 6)
 
     def gen_fsched(self, rng, tier):
         n = rng.choice([2, 2, 3])
@@ -531,7 +586,9 @@ class C14(Property):
             if j["intervals"] != j["expected"] or any(c != 0 for c in j["exitcodes"]):
                 raise RuntimeError(f"real multiprocessing run incomplete: {j}")
             return f"ok overlaps={j['overlaps']}"
-        if "progs" in d:
+        if "deco" in d:
+            r = self.worker().call({"op": "deco", "ops": d["deco"]})
+        elif "progs" in d:
             r = self.worker().call({"op": "fsched", "procs": d["procs"], "steps": parse_steps(d["steps"]),
                                     "progs": d["progs"]})
         else:
@@ -575,6 +632,10 @@ class C14(Property):
         v = self._viol.get(case.key())
         if v:
             what = v[0].split(":")[0]
+            if "deco" in case.data:
+                return Failure(f"deco/{what}/{case.key()}",
+                               "; ".join(v[:2]) + f" — history `{' '.join(case.data['deco'])[:300]}` (n=new function, "
+                               "d=lock_tty(it), c=call it, x=drop it; slots 0-2)")
             if "progs" in case.data:
                 fns = {"nv": "get_terminal_name_version", "fb": "get_fg_bg_colors", "cs": "get_cell_size"}
                 progs = [" then ".join(fns[f] + "()" for f in p.split("+")) for p in case.data["progs"]]
@@ -614,6 +675,14 @@ class C14(Property):
         """a tie broke: more real-query-function schedules, every real-multiprocessing configuration,
         then more probe schedules"""
         fails = []
+        for k in range(600):
+            c = self.gen_online(rng, ("two-first-starts", "raising-bodies", "mix")[k % 3]) if k % 4 else self.gen_deco(rng)
+            if c is None:
+                continue
+            f = self.oracle(c, self.impl(c))
+            if f:
+                f.case = c
+                return [f]
         for _ in range(400):
             c = self.gen_fsched(rng, "quick")
             if c is None:
